@@ -1,4 +1,5 @@
 import GdVerif.Proto.Gs2
+import GdVerif.Spec.GsText
 /-
   SPEC for C04 / GameSpy 2 (the "qr2" query protocol; reference reading: node-gamedig
   `protocols/gamespy2.js`).  The request `FE FD 00 <id:4> FF FF FF` asks for the server variables,
@@ -15,15 +16,7 @@ import GdVerif.Proto.Gs2
 namespace Gd.Gs2.Spec
 open Gd Gd.Gs Gd.Gs2
 
-def bs (s : String) : Bytes := asciiBytes s
 def cstr (s : Bytes) : Bytes := s ++ [0]
-
-/-- decimal digits of `n`, most significant first (fuel: any number above `n`) -/
-def decAux : Nat → Nat → Bytes
-  | 0, _ => []
-  | f + 1, n => if n < 10 then [UInt8.ofNat (48 + n)] else decAux f (n / 10) ++ [UInt8.ofNat (48 + n % 10)]
-
-def dec (n : Nat) : Bytes := decAux (n + 1) n
 
 /-- abstract server state -/
 structure State where
